@@ -701,16 +701,15 @@ func phaseBFS(c *lib.Ctx) {
 	for i := range ops {
 		refs[i] = opRef(i)
 	}
-	// Shards are dealt by the first operation and are unequal (update-first
-	// subtrees are the largest, no-op-first ones are empty), so each shard gets
-	// 4 workers: oversubscribed while all shards run, but the heavy shards can
-	// use the cores that the light ones free.
-	workers := 4
-	if runtime.GOMAXPROCS(0) < workers {
-		runtime.GOMAXPROCS(workers)
-	}
+	// Workers per shard = GOMAXPROCS the parent assigned (NumCPU/shards, >= 2).
+	// Measured: 4 workers per shard double the CPU per execution (contention on
+	// the process' mmap lock and in the runtime) for no gain in wall time.
+	workers := runtime.GOMAXPROCS(0)
 	b := &lib.BFS[opRef]{C: c, Ops: refs, Exec: exec, MaxDepth: depth, Workers: workers, Confirm: true}
 	b.Run()
+	// lib.BFS notes "closed" when a shard's frontier empties; here that only
+	// means the shard's first operations were no-ops at the root.
+	c.Note("bfs_closed", "not claimed: shards are first-operation subtrees; the state space is unbounded (hours only grow), the bound is the depth")
 	if !c.Expired() {
 		c.Count("bfs_shards_completed_all_depths", 1)
 	}
